@@ -140,10 +140,16 @@ class RankSelection(SelectionFunction[T]):
         """
         random_value = randomness.next_float()
         bias = self.bias
-        return int(
+        # Numerically stable form of
+        # (bias - sqrt(bias**2 - 4.0 * (bias - 1.0) * random_value)) / 2.0 / (bias - 1.0),
+        # which divides by zero for a bias of 1.0 (random selection) and suffers from
+        # cancellation for a bias close to 1.0.
+        index = int(
             len(population)
-            * ((bias - sqrt(bias**2 - (4.0 * (bias - 1.0) * random_value))) / 2.0 / (bias - 1.0))
+            * (2.0 * random_value / (bias + sqrt(bias**2 - (4.0 * (bias - 1.0) * random_value))))
         )
+        # Make sure that rounding cannot lead to an index outside the population.
+        return min(index, len(population) - 1)
 
 
 class TournamentSelection(SelectionFunction[T]):
